@@ -53,8 +53,10 @@ structure LeafOk (O : Oracle) (E : Bytes → Bytes) (rk : Val) : Prop where
   /-- `xorN(&dst[0], &a[0], &b[0])`: the XOR of the first N bytes of `a` and `b`, stored over the first N bytes of `dst` -/
   xor : ∀ name N, (name, N) ∈ xorLeaves → ∀ dst a b : Bytes, N ≤ dst.length → N ≤ a.length → N ≤ b.length →
     O name [bytesV dst, bytesV a, bytesV b] = [bytesV (xorBytes (a.take N) (b.take N) ++ dst.drop N)]
-  /-- `gHashBlocks(&H[0], &tag[0], &data[0], count)`: `count` GHASH steps, the new tag -/
-  gh : ∀ (H tag data : Bytes) (count : Nat), H.length = 16 → tag.length = 16 → 16 * count ≤ data.length →
+  /-- `gHashBlocks(&H[0], &tag[0], &data[0], count)` for `count ≥ 1`: `count` GHASH steps, the new tag.  (The routine is a
+      do-while: with count = 0 it still hashes one block — Props/C11 proves the 16-byte read, the listing theorem of
+      Props/C06Arm64 requires `count ≥ 1` — so nothing is specified for count = 0; the glue never passes it.) -/
+  gh : ∀ (H tag data : Bytes) (count : Nat), 1 ≤ count → H.length = 16 → tag.length = 16 → 16 * count ≤ data.length →
     O 7 [bytesV H, bytesV tag, bytesV data, .int (count : Int)] = [bytesV (ghBlocks specGh H count tag data)]
 
 /-- the leaf specifications as a property of an assembly semantics `sem` (SMGo/Model/CTIR.lean: `sem name args j` = the
